@@ -14,7 +14,10 @@ import common
 import trainer_io as T
 
 ID = "C06"
-TRUSTED = ["the segmentation (section lists) is what the real parser produced (C05 is about the segmentation itself)",
+TRUSTED = ["harness/translate_writer.py: the reading it gives to its Python subset, and coq/theories/WriterRt.v (statement sequences as "
+           "out/bind, try/except Exception, the disk as a finite map from paths to text with os.walk / os.unlink / open 'w' / "
+           "write, the codec as the per-character oracle encb, str(float) as the oracle repr, a None Counter key as its str())",
+           "the segmentation (section lists) is what the real parser produced (C05 is about the segmentation itself)",
            "CPython repr(float) / float(str) round trip (checked on every probability that crosses a file)",
            "CPython int / int true division is correctly rounded; sum() of ints is exact",
            "codecs encode/decode of the ruleset encoding"]
@@ -364,6 +367,8 @@ def run(ctx):
         ("structs", "struct_case", "check_struct_files", groups["structs"]),
         ("tally", "list str * list (str * N)", "check_tally", groups["tally"]),
         ("ltally", "list str * list (N * list (str * N))", "check_ltally", groups["ltally"])], per=70)
+    import writer_tie
+    corr = writer_tie.obligations(["struct", "save"]) + corr
     rule = ("generated lists (as C19; flavours: mixed, e-mail/website dominated, all counts tied, 1-3 passwords, 15-30 passwords) x "
             "coverage in {0, .25, .6, 1, random} x 4 encodings, boundary coverages next to 0 and 1, stale files planted in the length-indexed folders of every third run and in every fixed-name list (Years, Context, Emails, Websites, Grammar, Prince) of every third run = a retrain of an existing rule name; oracle: "
             "recount from the section lists the real parser produced, every *.txt = [(v, count/total)] in most-common order with "
